@@ -7,21 +7,28 @@
 From Coq Require Import Reals ZArith List.
 From Coq Require PrimFloat.
 From Celer Require Import Base.Num Base.NumR Base.NumF Base.Stream Base.Vec3
-  C15.Samplers C15.SamplersProofs C20.Optical C20.RotateProofs C20.OpticalProofs C20.OpticalWitness.
+  C15.Samplers C15.SamplersProofs C20.RotateVariants C20.Optical C20.RotateProofs C20.OpticalProofs C20.OpticalWitness.
 Import ListNotations.
 Local Open Scope R_scope.
 
-(** ** rotate (corecel/math/ArrayUtils.hh) *)
+(** ** rotate (corecel/math/ArrayUtils.hh).  [rotate] is Base/Vec3.v's model of
+    the current source; [rotate_old] / [rotate_new] (C20/RotateVariants.v) are
+    the code as pinned and the repaired code. *)
+Theorem C20_rotate_model_is_pinned_code : forall min_acc (d rot : vec3 R),
+  rotate min_acc d rot = rotate_old min_acc d rot.
+Proof. exact rotate_base_eq. Qed.
+Print Assumptions C20_rotate_model_is_pinned_code.
+
 Theorem C20_rotate_unit : forall min_acc (d rot : vec3 R),
   0 < min_acc -> dot rot rot = 1 -> dot d d = 1 ->
   dot (rotate min_acc d rot) (rotate min_acc d rot) = 1.
-Proof. intros min_acc d rot Ha Hr Hd. exact (rotate_unit min_acc rot Ha Hr d Hd). Qed.
+Proof. intros min_acc d rot Ha Hr Hd. exact (proj1 (rotate_base_isometry min_acc rot Ha Hr) d Hd). Qed.
 Print Assumptions C20_rotate_unit.
 
 Theorem C20_rotate_preserves_dot : forall min_acc (d e rot : vec3 R),
   0 < min_acc -> dot rot rot = 1 -> dot d d = 1 -> dot e e = 1 ->
   dot (rotate min_acc d rot) (rotate min_acc e rot) = dot d e.
-Proof. intros min_acc d e rot Ha Hr Hd He. exact (rotate_dot min_acc rot Ha Hr d e Hd He). Qed.
+Proof. intros min_acc d e rot Ha Hr Hd He. exact (proj2 (rotate_base_isometry min_acc rot Ha Hr) d e Hd He). Qed.
 Print Assumptions C20_rotate_preserves_dot.
 
 (** polar angle about [rot] is kept when sin(theta_rot) >= min_acc or rot_y >= 0 *)
@@ -29,15 +36,29 @@ Theorem C20_rotate_polar : forall min_acc (d rot : vec3 R),
   0 < min_acc -> dot rot rot = 1 -> dot d d = 1 ->
   (min_acc <= sqrt (1 - vz rot * vz rot) \/ 0 <= vy rot) ->
   dot (rotate min_acc d rot) rot = vz d.
-Proof. intros min_acc d rot Ha Hr Hd Hg. exact (rotate_polar min_acc rot Ha Hr d Hd Hg). Qed.
+Proof. intros min_acc d rot Ha Hr Hd Hg. exact (rotate_base_polar min_acc rot Ha Hr Hg d Hd). Qed.
 Print Assumptions C20_rotate_polar.
 
-(** ... and NOT otherwise: in the middle branch the sign of rot_y is dropped (F10) *)
+(** ... and NOT otherwise for the pinned code: in the middle branch the sign of
+    rot_y is dropped (finding F10) *)
 Theorem C20_rotate_polar_refuted :
   exists d rot : vec3 R, dot d d = 1 /\ dot rot rot = 1 /\
-    dot (rotate (T:=R) (5 / 1000) d rot) rot <> vz d.
+    dot (rotate_old (T:=R) (5 / 1000) d rot) rot <> vz d.
 Proof. exact rotate_polar_refuted. Qed.
 Print Assumptions C20_rotate_polar_refuted.
+
+(** the repaired code is a rotation taking e_z to [rot] for EVERY unit [rot] *)
+Theorem C20_rotate_repaired : forall min_acc (d e rot : vec3 R),
+  0 < min_acc -> dot rot rot = 1 -> dot d d = 1 -> dot e e = 1 ->
+  dot (rotate_new min_acc d rot) (rotate_new min_acc d rot) = 1 /\
+  dot (rotate_new min_acc d rot) (rotate_new min_acc e rot) = dot d e /\
+  dot (rotate_new min_acc d rot) rot = vz d.
+Proof.
+  intros min_acc d e rot Ha Hr Hd He.
+  pose proof (rotate_new_isometry min_acc rot Ha Hr) as [H1 H2].
+  split; [exact (H1 d Hd)|]. split; [exact (H2 d e Hd He)|exact (rotate_new_polar min_acc rot Ha Hr d Hd)].
+Qed.
+Print Assumptions C20_rotate_repaired.
 
 (** ** Cerenkov photons *)
 Theorem C20_cerenkov_dir_unit : forall min_acc k es ns d s p s',
@@ -69,6 +90,16 @@ Theorem C20_cerenkov_on_cone : forall min_acc k es ns d s p s',
   /\ 0 < dot (ph_dir p) (step_dir d) <= 1.
 Proof. intros. eapply cerenkov_on_cone; eauto using ckv_valid_inputs_ok. Qed.
 Print Assumptions C20_cerenkov_on_cone.
+
+(** with the repaired rotate: on the cone for every step direction *)
+Theorem C20_cerenkov_valid_with_repaired_rotate : forall min_acc k es ns d s p s',
+  0 < min_acc -> ckv_valid_inputs es ns d -> Forall canonical s ->
+  ckv_photon_with (rotate_new min_acc) k es ns d (ckv_construct k es ns d) s = Some (p, s') ->
+  (dot (ph_dir p) (step_dir d) = mean_inv_beta d / gcalc es ns (ph_energy p)
+   /\ 0 < dot (ph_dir p) (step_dir d) <= 1)
+  /\ dot (ph_dir p) (ph_dir p) = 1 /\ dot (ph_pol p) (ph_pol p) = 1 /\ dot (ph_pol p) (ph_dir p) = 0.
+Proof. intros. eapply cerenkov_on_cone_repaired; eauto using ckv_valid_inputs_ok. Qed.
+Print Assumptions C20_cerenkov_valid_with_repaired_rotate.
 
 Theorem C20_cerenkov_energy_in_grid : forall min_acc k es ns d s p s',
   front es <= back es -> Forall canonical s ->
@@ -132,8 +163,8 @@ Theorem C20_scint_energy_refuted :
 Proof. exact scint_energy_refuted. Qed.
 Print Assumptions C20_scint_energy_refuted.
 
-(** ** Further refutations on the executed (binary64) model, both replayed on
-    the real code.  (1) F10 in floats: cone cosine off by > 2^-10 for a step
+(** ** Further refutations on the executed (binary64) model of the pinned code
+    ([rotate_old]), both replayed on the real code.  (1) F10 in floats: cone cosine off by > 2^-10 for a step
     direction 0.115 degrees from +z with negative y.  (2) NaN: for a rotation
     axis (0, 0, 1 - 2^-53) -- what make_unit_vector returns for ~13% of steps
     exactly along z -- rotate returns NaN in every component, and so the
@@ -142,14 +173,14 @@ Theorem C20_rotate_polar_refuted_float :
   let rot := make_unit_vector f10_rot_f in
   let d := from_spherical (PrimFloat.div PrimFloat.one PrimFloat.two) PrimFloat.zero in
   PrimFloat.ltb two_m10
-                (PrimFloat.abs (PrimFloat.sub (dot (rotate min_acc_f d rot) rot)
+                (PrimFloat.abs (PrimFloat.sub (dot (rotate_old min_acc_f d rot) rot)
                                               (PrimFloat.div PrimFloat.one PrimFloat.two))) = true.
 Proof. exact rotate_polar_refuted_float. Qed.
 Print Assumptions C20_rotate_polar_refuted_float.
 
 Theorem C20_rotate_nan_refuted_float :
   let rot := V3 PrimFloat.zero PrimFloat.zero (PrimFloat.next_down PrimFloat.one) in
-  let v := rotate min_acc_f (V3 PrimFloat.one PrimFloat.zero PrimFloat.zero) rot in
+  let v := rotate_old min_acc_f (V3 PrimFloat.one PrimFloat.zero PrimFloat.zero) rot in
   PrimFloat.ltb (PrimFloat.abs (PrimFloat.sub (dot rot rot) PrimFloat.one))
                 two_m50 = true /\
   is_nan (vx v) = true /\ is_nan (vy v) = true /\ is_nan (vz v) = true.
@@ -159,7 +190,19 @@ Print Assumptions C20_rotate_nan_refuted_float.
 Theorem C20_cerenkov_nan_direction_refuted_float :
   exists (k : consts (T:=PrimFloat.float)) es ns d s p s',
     material_ok es ns = true /\ forallb canonicalb s = true /\
-    ckv_photon min_acc_f k es ns d (ckv_construct k es ns d) s = Some (p, s') /\
+    ckv_photon_with (rotate_old min_acc_f) k es ns d (ckv_construct k es ns d) s = Some (p, s') /\
     is_nan (vx (ph_dir p)) = true.
 Proof. exact cerenkov_nan_direction_refuted_float. Qed.
 Print Assumptions C20_cerenkov_nan_direction_refuted_float.
+
+(** the repaired rotate on the same three inputs (binary64): on the cone, finite *)
+Theorem C20_rotate_repaired_witnesses_float :
+  let rot := make_unit_vector f10_rot_f in
+  let d := from_spherical (PrimFloat.div PrimFloat.one PrimFloat.two) PrimFloat.zero in
+  PrimFloat.ltb (PrimFloat.abs (PrimFloat.sub (dot (rotate_new min_acc_f d rot) rot)
+                                              (PrimFloat.div PrimFloat.one PrimFloat.two))) two_m40 = true /\
+  let v := rotate_new min_acc_f (V3 PrimFloat.one PrimFloat.zero PrimFloat.zero)
+                      (V3 PrimFloat.zero PrimFloat.zero (PrimFloat.next_down PrimFloat.one)) in
+  orb (orb (is_nan (vx v)) (is_nan (vy v))) (is_nan (vz v)) = false.
+Proof. split; [exact (proj1 rotate_new_witnesses)|exact (proj1 (proj2 rotate_new_witnesses))]. Qed.
+Print Assumptions C20_rotate_repaired_witnesses_float.
